@@ -23,7 +23,7 @@
 From Coq Require Import QArith Qcanon List String Bool.
 Import ListNotations.
 From S2 Require Import Base.Num Base.Arr Model.Expr Model.Struct Model.Rates Model.Solvers Spec.RatesSpec
-     Proofs.NumQc Proofs.BuildProofs Proofs.CopiesProofs Proofs.AggregateProofs Proofs.InvarianceProofs Proofs.Assembly Proofs.SameKeys Proofs.AgeAssembly Proofs.TimeShift Proofs.Scaling Proofs.AggregateRates Proofs.AggregateModel Proofs.AggregateTotals Proofs.AggregateAll Proofs.RatesBridge Proofs.AggregateFinal Proofs.AggregateTraj Proofs.AgeZero Proofs.AggregateClosed Proofs.FoiProofs Proofs.FoiAggregate Proofs.FoiBridge Proofs.FoiModel Proofs.AggregateInf Proofs.RatesBridgeInf Proofs.AggregateFinalInf Proofs.AggregateTrajInf Proofs.AggregatePositive Proofs.RatesProofs Proofs.PositivityProofs Proofs.PositivityTraj Proofs.RunExt Model.Program Props.Examples.
+     Proofs.NumQc Proofs.BuildProofs Proofs.CopiesProofs Proofs.AggregateProofs Proofs.InvarianceProofs Proofs.Assembly Proofs.SameKeys Proofs.AgeAssembly Proofs.TimeShift Proofs.Scaling Proofs.AggregateRates Proofs.AggregateModel Proofs.AggregateTotals Proofs.AggregateAll Proofs.RatesBridge Proofs.AggregateFinal Proofs.AggregateTraj Proofs.AgeZero Proofs.AggregateClosed Proofs.FoiProofs Proofs.FoiAggregate Proofs.FoiBridge Proofs.FoiModel Proofs.AggregateInf Proofs.RatesBridgeInf Proofs.AggregateFinalInf Proofs.AggregateTrajInf Proofs.AggregatePositive Proofs.AggregatePositiveInf Proofs.RatesProofs Proofs.PositivityProofs Proofs.PositivityTraj Proofs.RunExt Model.Program Props.Examples.
 
 (* the copies of an unadjusted stratification carry the parent's weight, or the parent's weight
    divided by the number of strata for entry flows, destination-only stratified transitions
@@ -329,6 +329,36 @@ Theorem C03_euler_rows_aggregate_all_partial :
       = solve_fixed O (euler_step O) (fun t y => get_comp_rates O m b p t y) tstart hs (agg O (copy_positions m s0 m') y0') k.
 Proof. intros O T. exact (stratified_euler_rows_aggregate_all O T). Qed.
 Print Assumptions C03_euler_rows_aggregate_all_partial.
+
+(* ... the same for models with infection flows (the premises of C03_euler_rows_aggregate_all_partial and of
+   C18_euler_trajectory_nonneg for the stratified model) *)
+Theorem C03_euler_rows_aggregate_all_positive_partial :
+  forall (O : NumOps) (T : NumTheory O) t0 t1 h comps inf ops (m : model) (s0 : strat) (m' : model) (b b' : backend),
+    build_ok t0 t1 h comps inf ops = Some m -> NoDup (m_comps m) ->
+    stratify_with m s0 = Ok m' ->
+    prepare_structural m = Ok b -> prepare_structural m' = Ok b' ->
+    NoDup (s_strata (normalise_strat s0)) -> s_strata (normalise_strat s0) <> [] ->
+    is_strain (s_kind (normalise_strat s0)) = false -> s_fadj (normalise_strat s0) = [] ->
+    s_mix (normalise_strat s0) = None -> s_iadj (normalise_strat s0) = [] ->
+    (forall f, In f (m_flows m) -> all_flow f) ->
+    forallb state_free (mix_exprs m) = true ->
+    forall (p : env O) (hs : F O),
+    (forall t y, foi_domain O m p t y) -> (forall t y, foi_domain O m' p t y) ->
+    (forall f, In f (m_flows m') -> flow_shape f) ->
+    (forall f c, In f (m_flows m') -> f_src f = Some c -> fkind_eqb (f_kind f) KAbs = false) ->
+    fle O T (f0 O) hs ->
+    (forall t y f, List.length y = List.length (m_comps m') -> nonneg O T y -> In f (m_flows m') ->
+                   fle O T (f0 O) (weight_spec O p t (vclean O y) f)) ->
+    (forall t y k, List.length y = List.length (m_comps m') -> nonneg O T y ->
+                   fle O T (f0 O) (nth k (muls_of O m' b' p t y) (f0 O))) ->
+    (forall t y c, List.length y = List.length (m_comps m') -> nonneg O T y -> (c < List.length (m_comps m'))%nat ->
+                   fle O T (fmul O hs (exit_coeff O m' b' p t y c)) (f1 O)) ->
+    forall (tstart : F O) (y0' : list (F O)) (k : nat),
+      List.length y0' = List.length (m_comps m') -> nonneg O T y0' ->
+      map (agg O (copy_positions m s0 m')) (solve_fixed O (euler_step O) (fun t y => get_comp_rates O m' b' p t y) tstart hs y0' k)
+      = solve_fixed O (euler_step O) (fun t y => get_comp_rates O m b p t y) tstart hs (agg O (copy_positions m s0 m') y0') k.
+Proof. intros O T. exact (stratified_euler_rows_aggregate_all_positive O T). Qed.
+Print Assumptions C03_euler_rows_aggregate_all_positive_partial.
 
 (* non-vacuity: S, I, R with I split in two copies (positions 1 and 2), the second half as infectious in both layouts *)
 Example C03_foi_nonvacuous :
